@@ -9,6 +9,7 @@ import PygVerif.Model.Cache
 import PygVerif.Model.Fail
 import PygVerif.Model.Zip
 import PygVerif.Model.Frame
+import PygVerif.Driver.TalIO
 /-!
 # Driver — line protocol between the Python harness and the executable model
 
@@ -261,6 +262,27 @@ def step (fields : List String) : String :=
       | _ => .info []
     encStr (respond w Generated.gplusAdmin (decBool head) o)
   | ["statusline", code, mt] => encStr (statusLine (decStr code) (decStr mt))
+  | ["talcompile", nodes] =>
+    ";".intercalate ((Tal.compileList 0 (TalIO.parseNodes nodes)).map TalIO.encCmd)
+  | ["talexpand", allowPy, globals, nodes] =>
+    let t := TalIO.parseNodes nodes
+    let g := match TalIO.parseVal globals with | .map m => m | _ => []
+    let ctx : Tal.Ctx := { globals := g, allowPython := decBool allowPy }
+    let py : Str → Tal.Val := fun _ => .str (lit "PYTHON-ORACLE")
+    let prog := Tal.compileList 0 t
+    let viaMachine := Tal.expand py (200000) t ctx
+    let (dOut, dCtx) := Tal.denoteList py t ctx
+    (match viaMachine with
+     | none => "MACHINE-STUCK"
+     | some (o, c) =>
+       encStr o ++ "\t" ++ TalIO.encVars c.locals ++ "\t" ++ TalIO.encVars c.globals ++ "\t" ++ toString c.localStack.length ++ "\t" ++
+         toString c.repeatStack.length ++ "\t" ++ toString c.repeatMap.length ++ "\t" ++ toString prog.length) ++ "\t" ++
+      encStr dOut ++ "\t" ++ TalIO.encVars dCtx.locals ++ "\t" ++ TalIO.encVars dCtx.globals ++ "\t" ++ toString dCtx.localStack.length
+  | ["tales", allowPy, globals, locals, expr] =>
+    let g := match TalIO.parseVal globals with | .map m => m | _ => []
+    let l := match TalIO.parseVal locals with | .map m => m | _ => []
+    let ctx : Tal.Ctx := { globals := g, locals := l, allowPython := decBool allowPy }
+    TalIO.encVal (Tal.eval (fun _ => .str (lit "PYTHON-ORACLE")) ctx (decStr expr))
   | ["skeleton", st, page] =>
     let (s, k) := run (tstateOf st) (decStr page)
     (match s with | .text => "text" | .tag => "tag" | .attrDq => "dq" | .attrSq => "sq") ++ "\t" ++ encStr k
